@@ -278,6 +278,42 @@ Proof.
     destruct (IH ys r r' Hx2 Hy2 (f_equal pred Hl) H') as [E' Hr].
     split; [cbn [map]; now rewrite E, E'|exact Hr].
 Qed.
+(* no value hashes to the empty stream, so lists of DIFFERENT lengths cannot share a stream either *)
+Lemma hash_trip_nonempty t : hash_trip t <> [].
+Proof.
+  rewrite hash_trip_stream. intros H. apply (f_equal (@List.length Z)) in H. revert H.
+  change (enc c_trip (tr_data t)) with (enc_trip (tr_data t)). unfold enc_trip.
+  destruct (tr_data t) as [[id hd] rest]. cbn [fst snd].
+  change (enc c_trip_hd (id, hd)) with (enc_str id ++ enc (c_pair c_str (c_pair u8 (c_pair c_bool (c_pair i64 (c_pair c_bool i64))))) hd).
+  unfold enc_str. rewrite <- !app_assoc, app_length, le_bytes_length. cbn [List.length]. lia.
+Qed.
+Lemma hash_vehicle_nonempty v : hash_vehicle v <> [].
+Proof.
+  rewrite hash_vehicle_stream, enc_vehicle_flat_eq. unfold enc_vehicle_flat.
+  destruct (ve_id (hv v)) as [i|]; cbn [omap option_map]; intros H; apply (f_equal (@List.length Z)) in H; revert H;
+    change (enc (c_option c_vid)) with (enc_option c_vid); unfold enc_option; rewrite <- ?app_assoc, app_length;
+    destruct (enc_bool true) eqn:Et; destruct (enc_bool false) eqn:Ef; try discriminate Et; try discriminate Ef; cbn [List.length]; lia.
+Qed.
+Theorem trips_hash_stream_injective : forall xs ys, Forall wf_trip xs -> Forall wf_trip ys ->
+  concat (map hash_trip xs) = concat (map hash_trip ys) -> map erase_trip xs = map erase_trip ys.
+Proof.
+  induction xs as [|x xs IH]; intros [|y ys] Hx Hy H.
+  - reflexivity.
+  - exfalso. cbn [map concat] in H. symmetry in H. apply app_eq_nil in H. now apply (hash_trip_nonempty y).
+  - exfalso. cbn [map concat] in H. apply app_eq_nil in H. now apply (hash_trip_nonempty x).
+  - inversion Hx as [|? ? Hx1 Hx2]; inversion Hy as [|? ? Hy1 Hy2]; subst. cbn [map concat] in H.
+    destruct (trip_hash_prefix_free _ _ _ _ Hx1 Hy1 H) as [E H']. cbn [map]. now rewrite E, (IH ys Hx2 Hy2 H').
+Qed.
+Theorem vehicles_hash_stream_injective : forall xs ys, Forall wf_vehicle xs -> Forall wf_vehicle ys ->
+  concat (map hash_vehicle xs) = concat (map hash_vehicle ys) -> map erase_vehicle xs = map erase_vehicle ys.
+Proof.
+  induction xs as [|x xs IH]; intros [|y ys] Hx Hy H.
+  - reflexivity.
+  - exfalso. cbn [map concat] in H. symmetry in H. apply app_eq_nil in H. now apply (hash_vehicle_nonempty y).
+  - exfalso. cbn [map concat] in H. apply app_eq_nil in H. now apply (hash_vehicle_nonempty x).
+  - inversion Hx as [|? ? Hx1 Hx2]; inversion Hy as [|? ? Hy1 Hy2]; subst. cbn [map concat] in H.
+    destruct (vehicle_hash_prefix_free _ _ _ _ Hx1 Hy1 H) as [E H']. cbn [map]. now rewrite E, (IH ys Hx2 Hy2 H').
+Qed.
 (* what is ignored: the hash factors through the erasure *)
 Theorem trip_hash_ignores t : hash_trip (erase_trip t) = hash_trip t.
 Proof. now rewrite !hash_trip_stream, tr_data_erase. Qed.
